@@ -746,7 +746,7 @@ func (rt *runtime) toValue(value interface{}) Value {
 
 					v, err := rt.convertCallParameter(a, t)
 					if err != nil {
-						panic(rt.panicTypeError(err.Error()))
+						panic(rt.panicTypeError("%s", err.Error()))
 					}
 
 					in[i] = v
@@ -855,11 +855,11 @@ func (rt *runtime) parseThrow(err error) {
 	if errors.Is(err, &errl) {
 		err := errl[0]
 		if err.Message == "invalid left-hand side in assignment" {
-			panic(rt.panicReferenceError(err.Message))
+			panic(rt.panicReferenceError("%s", err.Message))
 		}
-		panic(rt.panicSyntaxError(err.Message))
+		panic(rt.panicSyntaxError("%s", err.Message))
 	}
-	panic(rt.panicSyntaxError(err.Error()))
+	panic(rt.panicSyntaxError("%s", err.Error()))
 }
 
 func (rt *runtime) cmplParseOrThrow(src, sm interface{}) *nodeProgram {
